@@ -280,6 +280,42 @@ int main(int argc, char ** argv)
       }
       if (sample.empty()) sample = "{\"tape\":" + T.prefix_json(std::min<size_t>(d0, 8)) + ",\"canonical\":" + event_json(E0) + "}";
     }
+    // H11: order independence over a whole stream - one instance shoots tapes 0..N-1, its twin the same tapes in reverse order;
+    // every event of the stream is a test under a different history (state kept inside the instance between shots)
+    {
+      const long N = std::max<long>(300, 60 * ntapes);
+      auto gA = fresh(1);
+      auto gB = fresh(1);
+      std::vector<bxdecay0::event> EA((size_t)N);
+      std::vector<size_t> dA((size_t)N);
+      auto tape_of = [&](long i, Tape & t) {
+        t.reseed(seed, (hash_str(lab) & 0xffffff) * 4096 + 0x400000 + (uint64_t)i);
+        if (i % 5 == 1) t.pin((size_t)(i / 5) % 4, (i % 10 == 1) ? 1e-9 : 1 - 1e-9); // first-lepton energy at both ends now and then
+      };
+      Tape t;
+      for (long i = 0; i < N; i++) {
+        tape_of(i, t);
+        gA->shoot(t, EA[(size_t)i]);
+        dA[(size_t)i] = t.pos;
+      }
+      for (long i = N - 1; i >= 0; i--) {
+        tape_of(i, t);
+        bxdecay0::event e;
+        gB->shoot(t, e);
+        evals++;
+        kinds_seen.insert("stream-order");
+        if (t.pos != dA[(size_t)i] || !events_bit_identical(EA[(size_t)i], e)) {
+          Mismatch & x = mm[lab + "|stream-order"];
+          if (x.count++ == 0) {
+            x.key = lab + "|stream-order";
+            x.detail = fmt("tape %ld of a stream of %ld gives another event when the stream is shot in reverse order (draws %zu vs %zu)", i, N, t.pos, dA[(size_t)i]);
+            x.tape = t.prefix_json(std::min<size_t>(std::max(t.pos, dA[(size_t)i]), 50));
+            x.ref = event_json(EA[(size_t)i]);
+            x.port = event_json(e);
+          }
+        }
+      }
+    }
     fprintf(OUT, "{\"config\":%s,\"accepted\":true,\"evaluations\":%ld,\"history_kinds\":%zu,\"sample\":%s,", jstr(lab).c_str(), evals, kinds_seen.size(),
             sample.empty() ? "null" : sample.c_str());
     emit_mismatches(OUT, "mismatches", mm);
